@@ -187,3 +187,20 @@ LEVEL_TEXT["C14"] = {
     "note": "History part is sequential; race part explores SC interleavings at hook and agent granularity from generated tapes.",
     "technique": "model-based property testing (operation histories vs reference model) + harness-owned schedules for the races",
 }
+
+PROPS["C17"] = {
+    "targets": [vt("props/C17_queues_vt.cpp", 15000, 60, 200000, 600)],
+    "rule": "case = container in {contiguous_index_queue (ranges up to 11 wide incl. ranges ending at 2^32-1), lock-free deque with a 2-node "
+            "freelist, lockfree_fifo, lockfree_lifo, abp_fifo, abp_lifo back-ends} x 1..4 logical threads x scripts of push/pop at both ends "
+            "(own/steal for the back-ends) x schedule tape with decision points at the index queue's load->CAS windows and the deque's anchor "
+            "load / unstabilised push / stabilize / pop sites; single-threaded cases are checked against a std::deque reference model of the "
+            "stated end order, concurrent cases against the multiset ledger (at most once while running, exactly once after a drain); "
+            "non-trivial iff sequential-model case or >= one context switch per thread beyond the start; distinct by hash",
+    "floor": {"quick": 200, "thorough": 2000},
+    "assumptions": ["SC interleavings at hook granularity; TSO/weak-memory effects are out of reach of this engine"],
+}
+LEVEL_TEXT["C17"] = {
+    "text": "The real containers run on harness-owned virtual threads with decision points inside their CAS loops (hook sites); every value pushed is unique, a ledger checks that no value is returned twice or invented at any time and that all values come out after producers finished and the container was drained; single-threaded cases are compared step by step with a std::deque reference model of each container's stated end order.",
+    "note": "Sequentially consistent interleavings at hook granularity, sampled from generated tapes; memory-order bugs that need store-buffer effects are not reachable.",
+    "technique": "property-based testing with harness-owned deterministic schedules + sequential reference model (differential)",
+}
